@@ -249,6 +249,7 @@ void reb_integrator_janus_part2(struct reb_simulation* r){
     reb_integrator_janus_synchronize(r);
 
     r->t += r->dt;
+    r->dt_last_done = r->dt;
 }
 
 void reb_integrator_janus_synchronize(struct reb_simulation* r){
